@@ -17,6 +17,7 @@
                                not assertion-freedom of the loop)
      - C13_path_to_tree_ok     trees built from a nonterminal chain are valid, rooted in the first
                                symbol, with the open leaf of the last symbol at depth |chain|-1
+     - C13_open_terminal_rejected  a tree with an open node labelled by a terminal is never accepted
      - C13_connect_ok          one connection step of connect_trees: no assertion fires, result
                                valid, same root label, contains the added tree
    Refuted: with CONTEXT_ADDITION in the mask (class K_ctx) results lose the inserted tree.
@@ -101,3 +102,19 @@ Example C13_self_example :
              forallb (insertedb ex_g ex_host ex_ins) rs = true.
 Proof. exact self_example. Qed.
 Print Assumptions C13_self_example.
+
+(* An OPEN node labelled with a terminal (e.g. "<hr />", "<a b>", "< >", "<", ">", "<a": they start
+   with '<' / end with '>' but are not nonterminals) anywhere in a tree excludes it from `inserted`,
+   and both executable checkers reject it. *)
+Theorem C13_open_terminal_rejected : forall g host ins r p l i ks,
+  is_nt l = false -> subtree r p = Some (Node l i true ks) ->
+  ~ inserted g host ins r /\ insertedb g host ins r = false /\ wf_treeb g r = false.
+Proof. exact open_terminal_rejected_all. Qed.
+Print Assumptions C13_open_terminal_rejected.
+
+Example C13_lookalike_terminals :
+  forallb (fun s => negb (is_nt s))
+    [[60;104;114;32;47;62]; [60;97;32;98;62]; [60;32;62]; [60]; [62]; [60;97]]%N = true
+  /\ is_nt [60;97;62]%N = true.
+Proof. exact lookalike_terminals. Qed.
+Print Assumptions C13_lookalike_terminals.
